@@ -60,7 +60,7 @@ ASSUMPTIONS = [
   "response fields other than type, opaque and (for reads/AMOs) data are not judged, except by the "
   "metamorphic comparison, which compares whole responses",
 ]
-QUICK_S = 34
+QUICK_S = 240
 THOROUGH_S = 780
 
 NBYTES = 4096                 # memory size handed to the memories
